@@ -246,6 +246,41 @@ func Render(n *jsonfault.Node, indent bool, escapeKeys bool) string {
 	return sb.String()
 }
 
+// spaced renders with a space on both sides of every structural character.
+func spaced(n *jsonfault.Node) string {
+	var sb strings.Builder
+	var rec func(n *jsonfault.Node)
+	rec = func(n *jsonfault.Node) {
+		switch n.Kind {
+		case jsonfault.Scalar:
+			sb.WriteString(n.Raw)
+		case jsonfault.Object:
+			sb.WriteString(" { ")
+			for i, k := range n.Keys {
+				if i > 0 {
+					sb.WriteString(" , ")
+				}
+				kb, _ := json.Marshal(k)
+				sb.Write(kb)
+				sb.WriteString(" : ")
+				rec(n.Elems[i])
+			}
+			sb.WriteString(" } ")
+		case jsonfault.Array:
+			sb.WriteString(" [ ")
+			for i, e := range n.Elems {
+				if i > 0 {
+					sb.WriteString(" , ")
+				}
+				rec(e)
+			}
+			sb.WriteString(" ] ")
+		}
+	}
+	rec(n)
+	return sb.String()
+}
+
 type layout struct {
 	Name string
 	Text string
@@ -301,6 +336,16 @@ func layoutsOf(root *jsonfault.Node, firstKeyPath []string, full bool) []layout 
 			out = append(out, layout{fmt.Sprintf("top-order-%d escaped-values-and-keys", oi), Render(e, true, true)})
 		}
 	}
+	// insignificant whitespace around the value, CR LF line ends
+	compact := Render(root, false, false)
+	indented := Render(root, true, false)
+	out = append(out,
+		layout{"leading-whitespace", " \n\t\r" + compact},
+		layout{"trailing-whitespace", compact + " \n\n\t "},
+		layout{"leading-newline indented", "\n" + indented},
+		layout{"crlf indented", strings.ReplaceAll(indented, "\n", "\r\n")},
+		layout{"spaces-around-separators", spaced(root)},
+	)
 	if first := find(root); first != nil {
 		fo := orders(len(first.Keys))
 		if !full && len(fo) > 6 {
